@@ -45,7 +45,7 @@ def passwords(rng, k, name, tier):
     out = []
     for j in range(n):
         ln = L[(k * n + j) % len(L)]
-        kind = ("ascii", "binary", "ascii", "high", "binary")[(k + j) % 5]
+        kind = ("ascii", "binary", "ws", "high", "binary", "ascii")[(k + j) % 6]
         out.append((H.pw_bytes(rng, ln, kind), kind))
     # text passwords with multi-byte characters (given as str)
     out.append((H.pw_text(rng, rng.choice([1, 3, 8, 20])), "text"))
@@ -160,7 +160,10 @@ def work(run, names, backend):
                     other = other_password(h, bname, secret)
                     bad = None
                     if other is not None:
-                        bad = h.verify(other, want, **ctx)
+                        try:
+                            bad = h.verify(other, want, **ctx)
+                        except ValueError:
+                            run.count("other_password_refused")  # e.g. scram: the altered text is SASLprep-prohibited
                 except Exception as e:
                     run.violation(f"C02|{name}|{backend}|verify-ref-raises|{type(e).__name__}",
                                   f"{name}: verify() of a reference-made hash raised {type(e).__name__}: {str(e)[:100]}",
@@ -182,7 +185,7 @@ def other_password(h, bname, secret):
     trunc = getattr(h, "truncate_size", None)
     if trunc and len(secret) >= trunc:
         # change the first byte instead (inside the significant prefix)
-        first = b"Q" if (secret[0] & 0x7F) != ord("Q") else b"R"
+        first = b"1" if (secret[0] & 0x7F) != ord("1") else b"2"   # a digit: no case folding, differs in the low 7 bits
         cand = first + secret[1:]
         if not H.is_utf8(cand) and (bname in H.TRANSCODING or bname.startswith("cisco")):
             return None
